@@ -89,9 +89,9 @@ def validate(ctx, evs, leg, pool=None):
     return len(segs), nfail
 
 
-def drive(ctx, drv, args, tag):
+def drive(ctx, drv, args, tag, seed=None):
     out = ctx.path("c19_%s.ndjson" % tag)
-    rc, so, se = ctx.run([drv, "-out", out, "-seed", str(ctx.seed), "-secring", SECRING] + args, timeout=600, ok_codes=None)
+    rc, so, se = ctx.run([drv, "-out", out, "-seed", str(seed or ctx.seed), "-secring", SECRING] + args, timeout=600, ok_codes=None)
     if rc != 0:
         pm = re.search(r"panic: (.*)", se) or re.search(r"fatal error: (.*)", se)
         fr = re.search(r"(perkeep\.org/[^\s(]+)", se[pm.end():]) if pm else None
@@ -231,15 +231,22 @@ def run(ctx, replay):
     if replay:
         rp = json.load(open(replay))
         scn = rp["scn"]
-        total = 0
-        for attempt in range(3):          # the interleaving of the copier with the uploads is not controlled
-            evs, st = drive(ctx, drv, ["-only", json.dumps(scn), "-cfgs", "asis"], "replay%d" % attempt)
-            n, nf = validate(ctx, evs, "replay")
-            total += n
-            if nf:
-                break
-        ctx.cov["traces_validated_against_impl"] += total
-        ctx.cov["evaluations"] += total
+        # The interleaving of the copier (and of the index's own goroutines) with the uploads is not controlled, so the
+        # lower-layer call a crash point denotes shifts by a few calls between runs: re-run the scenario several times,
+        # also with every other crash point of the same incarnation.
+        variants = [scn] * 3
+        for pi, ph in enumerate(scn.get("phases", [])):
+            if ph.get("crash") == "at" and ph.get("freeze", 0) > 0:
+                v = json.loads(json.dumps(scn))
+                v["phases"][pi]["crash"] = "sweep"
+                v["phases"][pi]["freeze"] = 0
+                variants += [v] * 6
+        sf = ctx.path("replay.jsonl")
+        vlib.write_jsonl(sf, variants)
+        evs, st = drive(ctx, drv, ["-scn", sf, "-cfgs", "asis", "-par", "4"], "replay", seed=scn.get("seed"))
+        n, nf = validate(ctx, evs, "replay")
+        ctx.cov["traces_validated_against_impl"] += n
+        ctx.cov["evaluations"] += len(evs)
         return
     # ---- G: scenario families (TLC), generated first (short JVM runs)
     core = ctx.tlc_gen("SyncGen", "SyncGen.cfg", tag="SCN")
@@ -256,6 +263,13 @@ def run(ctx, replay):
         wide = ctx.tlc_gen("SyncGen", "SyncGen.cfg", tag="SCN", overrides={
             "MaxLen": 3, "MaxRestarts": 2, "MaxFaults": 1, "CrashKinds": '{"sweep", "quiet"}'})
         fams.append(("wide", wide, "mem"))
+    # scripted: the index receives dependants before what they depend on (permanode before its key, claims before
+    # permanode and key), every crash point, then the rest of the world after the restart
+    ooo = [{"n": len(u), "pool": pl, "noperm": True, "phases": [
+               {"ups": u, "par": False, "dst": [], "src": [], "crash": "sweep", "freeze": 0},
+               {"ups": [], "par": False, "dst": d, "src": [], "crash": "none", "freeze": 0}]}
+           for u in ([2, 1], [3, 1, 2], [4, 2, 1], [3, 4, 2, 1]) for pl in (1, 2) for d in ([], ["after"])]
+    fams.append(("ooo-ix", ooo, "index"))
     ctx.sample({"scenario": core[len(core) // 2]})
     ctx.sample({"scenario": sample[0]})
     with ThreadPoolExecutor(max_workers=10) as pool:
